@@ -114,6 +114,12 @@ def whole_state_case():
             if api.mode == "sym":
                 api.use_lemma("B", 0, s, k, n, S_, N)
             api.check_sum(P + "/merge_is_sum_over_cells", api.arr_get(mg.value.value, k), 0, n, term)
+            for kk in KINDS:
+                api.check(P + "/merge_keeps_the_units_of_the_data." + kk, api.eq(mg.value.units.sys[kk], dus[kk]))
+            api.check(P + "/merge_keeps_the_dimensions_of_the_data", Q.dims_equal(api, mg.value.units, tr.data.units))
+        if ws.ok:
+            for kk in KINDS:
+                api.check(P + "/whole_state_keeps_the_units_of_the_data." + kk, api.eq(ws.value.units.sys[kk], dus[kk]))
 
     return Case(cid, run, functions=["RDTrajectory.get_state", "RDTrajectory.get_trajectory"])
 
